@@ -172,6 +172,10 @@ def coz(z):
 
 def cq(x):
     fr = Fraction(x)
+    if fr == 1:
+        return "U"
+    if fr.denominator == 1:
+        return "(z (%d))" % fr.numerator
     return "(q (%d) %d)" % (fr.numerator, fr.denominator)
 
 
